@@ -34,17 +34,13 @@ def check_row(case, stats):
     if got != exp:
         raise Violation(case, "GherkinLine.table_cells(%r) = %r, documented splitting gives %r" % (row, got, exp))
     if trim(row).startswith("|"):
-        # a consumer empties / edits the items of a matched row token; the same row text matched again is unaffected
-        for _ in range(2):
-            tok = gh.Token(gh.GherkinLine(row + "\n", 1), {"line": 1})
-            if not gh.TokenMatcher("en").match_TableRow(tok):
-                raise Violation(case, "row %r is not matched as a table row" % row)
-            items = [(c["text"], c["column"]) for c in tok.matched_items]
-            if items != exp:
-                raise Violation(case, "matched items of row %r are %r (second look at the same text after a consumer edited the first token's items), expected %r" % (row, items, exp))
-            for c in tok.matched_items:
-                c["text"] = "edited"
-            del tok.matched_items[:]
+        # the same through the matcher: items of the matched row token
+        tok = gh.Token(gh.GherkinLine(row + "\n", 1), {"line": 1})
+        if not gh.TokenMatcher("en").match_TableRow(tok):
+            raise Violation(case, "row %r is not matched as a table row" % row)
+        items = [(c["text"], c["column"]) for c in tok.matched_items]
+        if items != exp:
+            raise Violation(case, "matched items of row %r are %r, expected %r" % (row, items, exp))
     if case.get("doc") and trim(row).startswith("|"):
         r = gh.parse(PREFIX + row + "\n")
         if r[0] != "ok":
